@@ -8,14 +8,14 @@
          `LawsTFormal tcs x`  (Model/TimeDomain.lean): every residual has the empty normal form; decided by the driver on
                               the real Lcapy's closed forms.
   C01    `Laws .ivp s cs X`   (Spec/Laws.lean): the s-domain laws with initial-condition sources C·v0, L·i0, M·i0'.
-  C09    `lt_deriv`           `L{Dx}(s) = s·X(s) − x(0⁻)`;   C10  `ilt_laplace`, `causal_zero_before`.
+  C09    `lt_deriv`           `L{Dx}(s) = s·X(s) − x(0⁻)` (its lemma `L_signal_deriv`, Proofs/Laplace.lean, is used directly so that
+                              this module does not depend on the generated C09 tables);   C10  `ilt_laplace`, `causal_zero_before`.
 
   Only property theorems live here; helper lemmas are in Proofs/TimeDomain.lean.
 -/
 import Lcapy.Proofs.TimeDomain
 import Lcapy.Proofs.TimeDomainAnchor
 import Lcapy.Props.C01
-import Lcapy.Props.C09
 import Lcapy.Props.C10
 import Mathlib.Tactic.NormNum
 namespace Lcapy.C02
@@ -35,7 +35,7 @@ theorem cap_law_is_transform (hE : IsExp E) (x : Ix → Signal K) (n1 n2 : Nat) 
 /-- … and the same statement through `C09.lt_deriv` itself: the whole-axis signal whose pre-history sits at `v0`. -/
 theorem cap_law_via_lt_deriv [DecidableEq K] (hE : IsExp E) (c v0 s : K) (v : ExpPoly K) (hv : NonPole v s) :
     c * (Signal.deriv ⟨[(v0, 0, 0)], v⟩).L E s = capCurrent .ivp s c (some v0) (L E v s) := by
-  rw [C09.lt_deriv E hE s ⟨[(v0, 0, 0)], v⟩ hv]
+  rw [L_signal_deriv E hE s ⟨[(v0, 0, 0)], v⟩ hv]   -- the lemma quoted as `C09.lt_deriv`
   simp [capCurrent, pre0, Signal.L]; ring
 
 /-- **The ivp inductor law, mutual terms included, IS the transform of `v = L·D i + Σ M·D i'`** with
